@@ -28,8 +28,9 @@ def run_css(pid, tier, seed, replay, families, aspects, rule, ratios=(750,), sam
             ck.add_tlc(res)
             ck.notes.append("%s: %d of %d cases replayed" % (fam, len(res.cases), res.ncases))
             groups.append((fam, res.cases))
+    tstat = {} if "srcmap" in aspects else None
     for fam, cases in groups:
-        recs = cssrun.evaluate(cases, rnd, ratios=ratios, multiline=True, variants=variants)
+        recs = cssrun.evaluate(cases, rnd, ratios=ratios, multiline=True, variants=variants, trace=tstat)
         for rec in recs:
             ck.evaluations += 1
             if rec["panic"]:
@@ -51,4 +52,10 @@ def run_css(pid, tier, seed, replay, families, aspects, rule, ratios=(750,), sam
                               aspect, msg, rec["src"], json.dumps(rec["opts"]), rec["normal"], rec["low"]))
             if len(ck.samples) < 3 and not rec["findings"] and len(rec["src"]) > 30:
                 ck.sample({"input": rec["src"], "options": rec["opts"], "normal": rec["normal"], "low": rec["low"]})
+    if tstat:
+        ck.states += tstat.get("states", 0)
+        ck.transitions += tstat.get("transitions", 0)
+        ck.traces += tstat.get("accepted", 0)
+        ck.notes.append("OutMapTrace: %d output traces (%d events) validated against spec/OutMap.tla, %d accepted" % (
+            tstat.get("traces", 0), tstat.get("events", 0), tstat.get("accepted", 0)))
     return ck.finish()
